@@ -306,7 +306,7 @@ def refusal_cases():
 def plan(tier, seed):
     specs = [dict(name="stations", kind="stations"), dict(name="ip-grid", kind="ipgrid"), dict(name="lookalikes", kind="lookalikes"),
              dict(name="refusals", kind="refusals"), dict(name="broadcasts", kind="broadcasts")]
-    n = 1500 if tier == "quick" else 20000
+    n = 2500 if tier == "quick" else 100000
     for i in range(3):
         specs.append(dict(name="octets-%d" % i, kind="octets", n=n))
     for i in range(3):
